@@ -260,6 +260,10 @@ def run_shard(ctx):
     for i in range(ctx.share({"quick": 600, "thorough": 10000}[ctx.tier])):
         gd = gg.random_admg(rng, rng.choice([3, 4, 4, 5]))
         run_all_separations(ctx, gd, rng.choice([None, 0, 1, 2, 3]))
+    # graphs over counterfactual variables in two worlds: every name occurs twice (A@+x, A@-x)
+    for i in range(ctx.share({"quick": 300, "thorough": 5000}[ctx.tier])):
+        gd = gg.two_cf_worlds(gg.random_admg(rng, rng.randint(2, 4)), rng)
+        run_case(ctx, gd, rng.choice([None, 0, 1, 2]), rng.choice(["default", "len_lex"]), rng.random() < 0.3)
     # 9-10 nodes, return_all on: the policy chooses among several separators of different sizes
     for i in range(ctx.share({"quick": 48, "thorough": 800}[ctx.tier])):
         gd = two_separator_graph(rng) if i % 3 else gg.random_admg(rng, 9, p_di=0.2, p_bi=0.1)
